@@ -59,16 +59,22 @@ def r04_1(ctx):
     for crate in (ctx.lib, ctx.bin):
         want = rv.get(crate.kind, {})
         edges = panic_edges(crate)
+        # multiset per source file and kind (moving code between functions of one module is not a new edge)
+        per_file = {}
         for fn, ks in sorted(edges.items()):
             b = crate.by_id[fn]
+            for k, locs in ks.items():
+                per_file.setdefault(b.file, {}).setdefault(k, []).extend((b, bi, ln) for bi, ln in locs)
+        for f, ks in sorted(per_file.items()):
             for k, locs in sorted(ks.items()):
                 total += len(locs)
-                allowed = want.get(fn, {}).get(k, {}).get("count", 0)
+                allowed = want.get(f, {}).get(k, {}).get("count", 0)
                 ok = len(locs) <= allowed
-                why = want.get(fn, {}).get(k, {}).get("why", "NOT REVIEWED")
-                ctx.ob(f"{crate.kind}:{fn}:{k}", ok, site(b, locs[0][0]),
-                       f"{len(locs)} edge(s), reviewed {allowed}: {why}" if ok else
-                       f"unreviewed panic edge: {len(locs)} `{k}` edge(s) at line(s) {[l for _, l in locs]} in {fn}, {allowed} reviewed")
+                why = want.get(f, {}).get(k, {}).get("why", "NOT REVIEWED")
+                b0, bi0, _ = locs[0]
+                ctx.ob(f"{crate.kind}:{f}:{k}", ok, site(b0, bi0),
+                       f"{len(locs)} edge(s), reviewed {allowed}: {why[:300]}" if ok else
+                       f"unreviewed panic edge: {len(locs)} `{k}` edge(s) in {f} at {sorted({(x.name, ln) for x, _, ln in locs})}, {allowed} reviewed for this file")
     ctx.ob("edges-counted", total >= 30, "lib+bin", f"{total} panic-capable edge(s) in this configuration ({ctx.config})")
     # positive control: the same enumerator sees the control crate's panics
     ctl = ctx.facts.controls
@@ -84,6 +90,38 @@ def _find(lib, pred):
     return r
 
 
+def _emptiness_tests(nv):
+    """[(nonempty_edge, empty_edge)] for tests of the first parameter's emptiness."""
+    out = []
+    for bb, t in nv.calls():
+        f = fn_of(t) or {}
+        if not t["args"] or trace(nv, t["args"][0]).origin != ("arg", 1) or t["target"] is None:
+            continue
+        if f.get("name") == "is_empty":
+            sw = nv.blocks[t["target"]]["term"]
+            if sw["k"] != "switch":
+                continue
+            z = [x for v, x in sw["targets"] if v == 0]
+            if z:
+                out.append(((t["target"], 0, z[0]), (t["target"], "otherwise", sw["otherwise"])))
+        elif f.get("name") == "first" and nv.local_ty(t["dest"]["l"]).startswith("std::option::Option<"):
+            # `let Some(x) = input.first() else {..}` / `match input.first()`
+            for sb in sorted(nv.reach()):
+                sw = nv.blocks[sb]["term"]
+                if sw["k"] != "switch":
+                    continue
+                hit = any(s["k"] == "assign" and s["rv"]["k"] == "discr" and not s["rv"]["p"]["pr"] and s["rv"]["p"]["l"] == t["dest"]["l"] for s in nv.blocks[sb]["stmts"])
+                if not hit:
+                    continue
+                tg = dict((v, x) for v, x in sw["targets"])
+                some = (sb, 1, tg[1]) if 1 in tg else (sb, "otherwise", sw["otherwise"])
+                none = (sb, 0, tg[0]) if 0 in tg else (sb, "otherwise", sw["otherwise"])
+                if nv.blocks[some[2]]["term"]["k"] == "unreachable" or some == none:
+                    continue
+                out.append((some, none))
+    return out
+
+
 @rule("R04.2", 8, "re-verified guards of the anchored panic sites (size calculator bounds, length reader, capture reader slicing, buffer encapsulation)", ["C04"])
 def r04_2(ctx):
     import r_c18
@@ -96,21 +134,19 @@ def r04_2(ctx):
     entry = [lib.by_id[f] for f in comp if lib.by_id[f].nargs == 2]
     ctx.need(len(entry) == 1, "size calculator entry (input, budget) not found")
     nv = entry[0]
-    # G1: indexing of `input` is dominated by the false edge of input.is_empty()
-    emp = [(bb, t) for bb, t in nv.calls() if (fn_of(t) or {}).get("name") == "is_empty" and trace(nv, t["args"][0]).origin == ("arg", 1)]
-    ctx.ob("G1:is_empty-test", len(emp) == 1, site(nv), "input.is_empty() tested")
+    # G1: indexing of `input` is dominated by the non-empty edge of the emptiness test
+    # (`input.is_empty()` or `input.first()` matched against Some/None)
+    emp = _emptiness_tests(nv)
+    ctx.ob("G1:is_empty-test", len(emp) == 1, site(nv), f"{len(emp)} emptiness test(s) of `input` (is_empty() / first())")
     if emp:
-        ebb, et = emp[0]
-        sw = nv.blocks[et["target"]]["term"]
-        z = [x for v, x in sw["targets"] if v == 0][0]
-        edge = (et["target"], 0, z)
+        nonempty_edge, empty_edge = emp[0]
         n = 0
         for bi in sorted(nv.reach()):
             t = nv.blocks[bi]["term"]
             is_idx = (t["k"] == "assert" and t["msg"] == "bounds") or (t["k"] == "call" and (kind_of_call(fn_of(t) or {"def": "", "name": ""}) or "").startswith("call:index"))
             if is_idx:
                 n += 1
-                ok = nv.edge_dominates(edge[0], edge[1], edge[2], bi)
+                ok = nv.edge_dominates(nonempty_edge[0], nonempty_edge[1], nonempty_edge[2], bi)
                 ctx.ob(f"G1:index-under-nonempty:{n}", ok, site(nv, bi), "indexing happens only for non-empty input" if ok else "input is indexed without the emptiness test")
         # G2: every Ok(v) return is 0 under is_empty or lies on the true edge of total <= input.len()
         le_edges = []
@@ -139,7 +175,7 @@ def r04_2(ctx):
                     n_ok += 1
                     v = s["rv"]["ops"][0]
                     if v.get("k") == "const" and v.get("v") == 0:
-                        ok = nv.edge_dominates(et["target"], "otherwise", sw["otherwise"], bi)
+                        ok = nv.edge_dominates(empty_edge[0], empty_edge[1], empty_edge[2], bi)
                         ctx.ob(f"G2:ok-return:{n_ok}", ok, site(nv, bi), "Ok(0) only for empty input")
                     else:
                         ok = False
@@ -287,3 +323,29 @@ def r04_3(ctx):
                     once = False
             ctx.ob(key, ok and once, site(b, cb), f"handed to exactly one driver call per construction ({[n for _, n in drivers]})" if ok and once else f"object can be driven twice without being re-created ({[n for _, n in drivers]}): the second take_parent panics")
     ctx.ob("constructions", n_c >= 5, "lib", f"{n_c} construction(s) of State-bearing objects")
+
+
+@rule("R04.4", 2, "precondition of the chunker's reviewed slicing/unwrap sites: libyaml is pinned to UTF-8 (byte-accurate marks) before it is given input", ["C04", "C03"])
+def r04_4(ctx):
+    lib = ctx.lib
+    ctors = [b for b in lib.bodies if any((fn_of(t) or {}).get("name") == "yaml_parser_set_input" for _, t in b.calls())]
+    ctx.need(len(ctors) == 1, "libyaml parser constructor (calls yaml_parser_set_input) not found")
+    c = ctors[0]
+    enc = []
+    for bb, t in c.calls():
+        f = fn_of(t) or {}
+        if f.get("name") == "yaml_parser_set_encoding":
+            tr = trace(c, t["args"][1])
+            v = None
+            if tr.origin and tr.origin[0] == "agg":
+                v = tr.origin[1]["rv"].get("variant")
+            elif tr.origin and tr.origin[0] == "const":
+                v = tr.origin[1].get("variant")
+            enc.append((bb, v))
+    si = [bb for bb, t in c.calls() if (fn_of(t) or {}).get("name") == "yaml_parser_set_input"][0]
+    ok = any(v == "YAML_UTF8_ENCODING" and all(c.dominates(bb, r) for r in c.return_blocks()) for bb, v in enc)
+    ctx.ob("encoding-pinned-to-utf8", ok, site(c, si), "yaml_parser_set_encoding(YAML_UTF8_ENCODING) on every path of the constructor" if ok else
+           "libyaml is left to sniff the encoding: on a UTF-8 BOM its marks stop counting the bytes xt feeds it, so the chunker cuts documents at wrong offsets (String::from_utf8(..).unwrap() can panic, documents are mis-split)")
+    # xt's own re-encoder strips UTF-16/32 BOMs before libyaml sees the stream (R07.4); the parser never re-reads
+    pe = [b for b in lib.bodies if any((fn_of(t) or {}).get("name") == "yaml_parser_parse" for _, t in b.calls())]
+    ctx.ob("single-parse-site", len(pe) == 1, "lib", f"{len(pe)} function(s) drive yaml_parser_parse")
